@@ -85,6 +85,8 @@ pub struct OpSpec {
 pub enum Cmd {
     Op { op_id: usize, spec: OpSpec },
     Repair { rep_id: usize, peer: u8 },
+    /// compare the node's in-memory sets with its store (C02's oracle, inside the cluster)
+    Snapshot { snap_id: usize },
     /// re-send an earlier mutation as a fresh direct replication message (duplicate / late / reordered)
     Replay { ks: String, id: u64, ts: HLCTimestamp, data: Option<Vec<u8>>, origin: u8 },
 }
@@ -137,6 +139,8 @@ pub struct Shared {
     pub log: Fnv,
     pub replays_sent: u64,
     pub replay_errors: u64,
+    /// (snap id, node) -> set/store disagreements found (empty = agree)
+    pub snapshots: BTreeMap<(usize, u8), Vec<String>>,
     pub up: BTreeSet<u8>,
     /// host each node id currently runs on (a node can move to its alternative address)
     pub cur_host: BTreeMap<u8, String>,
@@ -197,6 +201,7 @@ impl<'a> Cluster<'a> {
             log: Fnv::new(),
             replays_sent: 0,
             replay_errors: 0,
+            snapshots: BTreeMap::new(),
             up: BTreeSet::new(),
             cur_host: cfg.nodes.iter().map(|n| (n.id, host_name(n.id))).collect(),
         }));
@@ -389,9 +394,33 @@ async fn node_main(sh: SharedRef, me: NodeCfg, _all: Vec<NodeCfg>, repair_ms: u6
     let store_handle = store.handle();
     let repairer = Rc::new(tokio::sync::Mutex::new(ecv::Repairer::new(group.clone(), network.clone())));
     while let Some(cmd) = cmd_rx.recv().await {
-        let (sh, h, clock, network, repairer) = (sh.clone(), store_handle.clone(), clock.clone(), network.clone(), repairer.clone());
+        let (sh, h, clock, network, repairer, group) = (sh.clone(), store_handle.clone(), clock.clone(), network.clone(), repairer.clone(), group.clone());
         tokio::task::spawn_local(async move {
             match cmd {
+                Cmd::Snapshot { snap_id } => {
+                    let store = sh.borrow().stores[&id].clone();
+                    let mut diffs = Vec::new();
+                    for ks in store.keyspace_names() {
+                        let mb = group.get_or_create_keyspace(&ks).await;
+                        match mb.send(ecv::Serialize).await {
+                            Ok(bytes) => match crate::e1::decode_set(&bytes) {
+                                Ok(set) => {
+                                    let (sl, sd) = crate::e1::set_listing(&set);
+                                    let (ml, md) = store.metadata(&ks);
+                                    if sl != ml {
+                                        diffs.push(format!("keyspace {ks}: set live {} vs store live {}", crate::e1::fmt_list(&sl), crate::e1::fmt_list(&ml)));
+                                    }
+                                    if sd != md {
+                                        diffs.push(format!("keyspace {ks}: set tombstones {} vs store tombstones {}", crate::e1::fmt_list(&sd), crate::e1::fmt_list(&md)));
+                                    }
+                                },
+                                Err(e) => diffs.push(format!("keyspace {ks}: {e}")),
+                            },
+                            Err(e) => diffs.push(format!("keyspace {ks}: serialize failed: {e}")),
+                        }
+                    }
+                    sh.borrow_mut().snapshots.insert((snap_id, id), diffs);
+                },
                 Cmd::Op { op_id, spec } => run_op(&sh, id, &h, op_id, spec).await,
                 Cmd::Repair { rep_id, peer } => {
                     let addr = sh.borrow().addrs.get(&peer).copied();
